@@ -294,7 +294,9 @@ def cpp_part(run, bi, root):
                 for op, payload in (("SE", json.dumps(PP.to_json(sch0, t, v))), ("DE", json.dumps(PP.to_json(sch0, t, v, True))), ("SD", canon.hex()), ("DD", canon.hex())):
                     lines.append("%s %s %s" % (op, name, payload))
                     meta.append((op, name, vi, v, canon))
-        outputs, crashes = cpp.run(b.binary, lines, b.dir, reflection=b.refl)
+        # (the twin's reflection binary is loaded TWICE into the one DynamicSchema object - an application re-reading
+        # its schema file: the declaration order of the file read last must not matter either)
+        outputs, crashes = cpp.run(b.binary, lines, b.dir, reflection=b.refl, reload=(tag == "twin"))
         if PP.report_crashes(run, crashes, lines, b.case, "C++ codecs on the %s schema" % tag):
             b.cleanup()
             return
